@@ -1,4 +1,5 @@
 import PoseVerif.Proofs.Trunc
+import PoseVerif.Proofs.Spec
 import PoseVerif.Props.C01
 /-!
 # C02 — written files follow the published v0.2 byte layout exactly
@@ -9,40 +10,12 @@ import PoseVerif.Props.C01
 namespace PoseVerif.Props.C02
 open PoseVerif
 
-def specStr (s : String) : Bytes := putU16 (bytesOfString s).length ++ bytesOfString s
-
-def specComp (c : Comp) : Bytes :=
-  specStr c.name ++ specStr c.format ++
-  putU16 c.points.length ++ putU16 c.limbs.length ++ putU16 c.colors.length ++
-  c.points.flatMap specStr ++
-  c.limbs.flatMap (fun l => putU16 l.1 ++ putU16 l.2) ++
-  c.colors.flatMap (fun k => putU16 k.1 ++ putU16 k.2.1 ++ putU16 k.2.2)
-
-/-- the file `docs/specs/v0.2.md` describes for this content (`fps` = the float32 pattern of the frame rate) -/
+/-- the file `docs/specs/v0.2.md` describes for this content (`fps` = the float32 pattern of the frame rate):
+    the header (`specHeader`: version, width, height, depth, component count, components — see `Proofs/Spec.lean`), then the body -/
 def specFile (p : Pose) (fps : F32) : Bytes :=
-  putF32 v02bits ++ putU16 p.header.width ++ putU16 p.header.height ++ putU16 p.header.depth ++
-  putU16 p.header.comps.length ++ p.header.comps.flatMap specComp ++
+  specHeader p.header v02bits ++
   putF32 fps ++ putU32 p.body.frames ++ putU16 p.body.people ++
   p.body.data.flatMap putF32 ++ p.body.conf.flatMap putF32
-
-theorem mapM_flatten {α : Type} (f : α → Option Bytes) (g : α → Bytes) (xs : List α) (ys : List Bytes)
-    (hfg : ∀ x b, f x = some b → b = g x) (h : xs.mapM f = some ys) : ys.flatten = xs.flatMap g := by
-  induction xs generalizing ys with
-  | nil => simp at h; subst h; rfl
-  | cons x xs ih =>
-    simp only [List.mapM_cons, Option.bind_eq_bind, Option.bind_eq_some_iff, Option.pure_def, Option.some.injEq] at h
-    obtain ⟨b, hb, ys', hys, rfl⟩ := h
-    simp [List.flatMap_cons, ih ys' hys, hfg x b hb]
-
-theorem encComp_spec (c : Comp) (b : Bytes) (h : encComp? c = some b) : b = specComp c := by
-  obtain ⟨n, f, cnt, ps, ls, cs, hn, hf, hcnt, hps, hls, hcs, rfl⟩ := encComp?_some h
-  obtain ⟨_, rfl⟩ := packStr?_some hn
-  obtain ⟨_, rfl⟩ := packStr?_some hf
-  obtain ⟨_, _, _, rfl⟩ := pack3U16?_some hcnt
-  rw [mapM_flatten _ specStr _ _ (fun x b hb => (packStr?_some hb).2) hps,
-      mapM_flatten _ (fun l : Nat × Nat => putU16 l.1 ++ putU16 l.2) _ _ (fun x b hb => (pack2U16?_some hb).2.2) hls,
-      mapM_flatten _ (fun k : Nat × Nat × Nat => putU16 k.1 ++ putU16 k.2.1 ++ putU16 k.2.2) _ _ (fun x b hb => (pack3U16?_some hb).2.2.2) hcs]
-  simp [specComp, specStr, List.append_assoc]
 
 /-- Writer direction: whatever `Pose.write` produces is exactly the documented layout. -/
 theorem write_layout (p : Pose) (b : Bytes) (h : p.write? = some b) :
@@ -56,7 +29,7 @@ theorem write_layout (p : Pose) (b : Bytes) (h : p.write? = some b) :
   obtain ⟨_, rfl⟩ := packU16?_some hnp
   refine ⟨w, hw, ?_⟩
   rw [mapM_flatten _ specComp _ _ encComp_spec hcs]
-  simp [specFile, putF32s, List.append_assoc]
+  simp [specFile, specHeader, putF32s, List.append_assoc]
 
 /-- Reader direction: any file the reference encoder produces for a representable, well-shaped pose is read to exactly the content it encodes. -/
 theorem read_of_reference (p : Pose) (hf : p.body.Fits p.header) (hr : p.Rep) :
